@@ -544,6 +544,20 @@ pub fn run_case(tape: &mut Tape, _tier: Tier, _p: &CaseParams) -> CaseOutcome {
       }
     }
   }
+  // (a cache-busting restart abandons the first pass: what was requested,
+  // rejected or delivered there may never be used)
+  let restart_seq = r1
+    .loads
+    .iter()
+    .filter(|l| {
+      l.id.nth >= 1
+        && l.id.cs == CS_USE
+        && !l.id.ensure
+        && world.roots.contains(&l.id.url)
+    })
+    .map(|l| l.seq)
+    .max()
+    .unwrap_or(0);
   // (2) integrity answers and retries
   let mut by_url: BTreeMap<(String, bool), Vec<&LoadRecord>> = BTreeMap::new();
   for l in &r1.loads {
@@ -601,7 +615,7 @@ pub fn run_case(tape: &mut Tape, _tier: Tier, _p: &CaseParams) -> CaseOutcome {
       }
     }
     let retry_ok = later.iter().any(|l| l.answer == "module" || l.answer == "external");
-    if !retry_ok && !u.ends_with("meta.json") {
+    if !retry_ok && !u.ends_with("meta.json") && recs[i].seq >= restart_seq {
       // final entry must be an integrity error, unless another verified
       // request (other ensure flag / implicit redirect) filled the entry
       let other_verified = r1.loads.iter().any(|l| {
@@ -856,20 +870,6 @@ pub fn run_case(tape: &mut Tape, _tier: Tier, _p: &CaseParams) -> CaseOutcome {
   // real request (not the cached-version probe) and that the lockfile did not
   // know is handed to the lockfile interface - whatever happens to the files
   // loaded afterwards
-  // (a cache-busting restart abandons the first pass: its manifests may
-  // never be used)
-  let restart_seq = r1
-    .loads
-    .iter()
-    .filter(|l| {
-      l.id.nth >= 1
-        && l.id.cs == CS_USE
-        && !l.id.ensure
-        && world.roots.contains(&l.id.url)
-    })
-    .map(|l| l.seq)
-    .max()
-    .unwrap_or(0);
   for l in &r1.loads {
     let Some(nv) = is_version_manifest(&l.id.url) else { continue };
     if l.answer != "module"
